@@ -30,6 +30,7 @@ package parser
 //@   requires specLexWF(self)
 //@   ensures specLexWF(self) && self.chrOffset >= old(self.chrOffset) && self.offset >= old(self.offset) [cursor-wf-and-monotone]
 //@   ensures self.str == old(self.str) && self.length == old(self.length) [text-unchanged]
+//@   ensures old(self.offset < self.length) ==> self.chrOffset == old(self.offset) && self.chr != -1 [advances-unless-eof]
 //@   assigns self.chrOffset, self.offset, self.chr, self.errors
 
 //@ func (*_parser).skipSingleLineComment safe
@@ -87,8 +88,8 @@ package parser
 //@ func (*_parser).scanEscape safe
 //@   props C01
 //@   requires specLexWF(self)
-//@   loop 1 invariant specLexWF(self) [cursor-wf]
-//@   loop 2 invariant specLexWF(self) [cursor-wf]
+//@   loop 1 invariant specLexWF(self) && self.str == old(self.str) && self.chrOffset >= old(self.chrOffset) [cursor-wf]
+//@   loop 2 invariant specLexWF(self) && self.str == old(self.str) && self.chrOffset >= old(self.chrOffset) [cursor-wf]
 //@   ensures specLexWF(self) && self.chrOffset >= old(self.chrOffset) && self.str == old(self.str) [cursor-wf-and-monotone]
 
 //@ func (*_parser).idxOf pure
@@ -97,5 +98,5 @@ package parser
 //@ func (*_parser).scanString safe
 //@   props C01
 //@   requires specLexWF(self) && 0 <= offset && offset < self.chrOffset
-//@   loop 1 vars offset int
-//@   loop 1 invariant specLexWF(self) && 0 <= offset && offset < self.chrOffset && self.str == old(self.str) [cursor-wf]
+//@   loop 1 vars offset int, quote rune
+//@   loop 1 invariant specLexWF(self) && 0 <= offset && offset < self.chrOffset && self.str == old(self.str) && quote >= -1 && (quote == -1 ==> self.chrOffset >= offset+2) [cursor-wf]
